@@ -30,7 +30,8 @@
    legal_sheet: the encoding denotes the logical sheet by the rules of ECMA-376 (explicit or
       implicit references under the cursor rule, ascending rows / columns, references inside the
       scanner's overflow bounds, ignorable content only where the schema allows other elements).
-   known_C01: classes on which the current code breaks the property. *)
+   known_C01_wb: the one class left on which the current code breaks the property (F30; gone
+      once rid_fix_applied is flipped). *)
 From Calamine Require Import Prelude Col26 Range Range_spec HeaderRow.
 From Calamine Require XmlText NumFmt.
 From Coq Require Strings.String Strings.Ascii.
@@ -111,6 +112,7 @@ Definition a_relsid : list N := Eval vm_compute in s2l "relationships:id"%string
 Definition a_id     : list N := Eval vm_compute in s2l "id"%string.
 Definition a_date1904 : list N := Eval vm_compute in s2l "date1904"%string.
 Definition v_true   : list N := Eval vm_compute in s2l "true"%string.
+Definition v_false  : list N := Eval vm_compute in s2l "false"%string.
 Definition v_visible : list N := Eval vm_compute in s2l "visible"%string.
 Definition v_hidden : list N := Eval vm_compute in s2l "hidden"%string.
 Definition v_veryHidden : list N := Eval vm_compute in s2l "veryHidden"%string.
@@ -253,7 +255,7 @@ Definition parse_cell_error (v : str) : option N :=
   if str_eqb v e_div0 then Some 0 else if str_eqb v e_na then Some 1
   else if str_eqb v e_name then Some 2 else if str_eqb v e_null then Some 3
   else if str_eqb v e_num then Some 4 else if str_eqb v e_ref then Some 5
-  else if str_eqb v e_value then Some 6 else None.
+  else if str_eqb v e_value then Some 6 else if str_eqb v e_getting then Some 7 else None.
 
 (* format_excel_f64_ref(value, format: Option<&CellFormat>, is_1904) *)
 Definition format_excel_f64_ref (bits : N) (format : option cell_format) (is_1904 : bool) : dref :=
@@ -262,6 +264,102 @@ Definition format_excel_f64_ref (bits : N) (format : option cell_format) (is_190
   | Some NumFmt.TimeDelta => RDateTime bits true is_1904
   | _ => RFloat bits
   end.
+
+(* ====================================================================================== *)
+(*      the hardened A1 scanner and Range::from_sparse (C06 hardening commits in /repo)      *)
+(* ====================================================================================== *)
+(* Col26.v and Range.v mirror these two functions as they were BEFORE the hardening (u32
+   arithmetic that panics on overflow; rows taken from the first / last cell).  The current code
+   is modelled here; XlsxSheet_proofs.v shows that the two generations agree wherever the old one
+   does not fail, which is how the round-trip theorems of Col26_proofs.v and C05_from_sparse_spec
+   keep serving. *)
+Definition sat64 (x : N) : N := N.min x U64MAX.                 (* u64 saturating_add / _mul *)
+Definition E_OUT_OF_RANGE : N := 14.                            (* Unexpected("… out of range") *)
+
+Definition xscan_letter (base c : N) (s : scan_state) : outcome scan_state :=
+  do s1 <- (if s_readrow s then
+              if s_row s =? 0 then Err E_NO_ROW
+              else Ok {| s_row := s_row s; s_col := s_col s; s_pow := 1; s_readrow := false |}
+            else Ok s);
+  Ok {| s_row := s_row s1;
+        s_col := sat64 (s_col s1 + sat64 ((c - base + 1) * s_pow s1));
+        s_pow := sat64 (s_pow s1 * 26); s_readrow := false |}.
+
+Definition xscan_char (c : N) (s : scan_state) : outcome scan_state :=
+  if is_digit c then
+    if s_readrow s then
+      Ok {| s_row := sat64 (s_row s + sat64 ((c - ch_0) * s_pow s)); s_col := s_col s;
+            s_pow := sat64 (s_pow s * 10); s_readrow := true |}
+    else Err E_NUMERIC_COLUMN
+  else if is_upper c then xscan_letter ch_A c s
+  else if is_lower c then xscan_letter ch_a c s
+  else Err E_ALPHANUMERIC.
+
+Fixpoint xscan_loop (rs : list N) (s : scan_state) : outcome scan_state :=
+  match rs with
+  | [] => Ok s
+  | c :: t => do s' <- xscan_char c s; xscan_loop t s'
+  end.
+
+Definition get_row_and_optional_column_x (range : list N) : outcome (N * option N) :=
+  do s <- xscan_loop (rev range) scan_init;
+  if s_row s =? 0 then Err E_NO_ROW                              (* row.checked_sub(1) *)
+  else if U32MAX <? s_row s - 1 then Err E_OUT_OF_RANGE          (* u32::try_from(row) *)
+  else if s_col s =? 0 then Ok (s_row s - 1, None)
+  else if U32MAX <? s_col s - 1 then Err E_OUT_OF_RANGE
+  else Ok (s_row s - 1, Some (s_col s - 1)).
+
+Definition get_row_column_x (range : list N) : outcome (N * N) :=
+  do rc <- get_row_and_optional_column_x range;
+  match snd rc with Some c => Ok (fst rc, c) | None => Err E_NO_COLUMN end.
+Definition get_row_x (range : list N) : outcome N :=
+  do rc <- get_row_and_optional_column_x range; Ok (fst rc).
+
+Fixpoint collect_parts_x (ps : list (list N)) : outcome (list (N * N)) :=
+  match ps with
+  | [] => Ok []
+  | p :: t => do x <- get_row_column_x p; do xs <- collect_parts_x t; Ok (x :: xs)
+  end.
+(* rows / columns are only computed for a warning, with saturating_sub *)
+Definition get_dimension_x (dimension : list N) : outcome ((N * N) * (N * N)) :=
+  do parts <- collect_parts_x (split_on ch_colon dimension []);
+  match parts with
+  | [p] => Ok (p, p)
+  | [p0; p1] => Ok (p0, p1)
+  | _ => Err E_DIMENSION_COUNT
+  end.
+
+(* Range::from_sparse: bounds = min / max over all cells; no arithmetic can fail any more
+   (max >= min on a non-empty list; usize is 64 bits: (hi - lo) + 1 <= 2^32 and the products of
+   two such numbers stay below 2^64 except 2^32 * 2^32, which saturates) *)
+Section FromSparseX.
+Variable T : Type.
+Variable d : T.
+Definition row_lo (cells : list (pos * T)) : N :=
+  fold_left (fun m c => if fst (fst c) <? m then fst (fst c) else m) cells U32MAX.
+Definition row_hi (cells : list (pos * T)) : N :=
+  fold_left (fun m c => if m <? fst (fst c) then fst (fst c) else m) cells 0.
+Definition col_lo (cells : list (pos * T)) : N :=
+  fold_left (fun m c => if snd (fst c) <? m then snd (fst c) else m) cells U32MAX.
+Definition col_hi (cells : list (pos * T)) : N :=
+  fold_left (fun m c => if m <? snd (fst c) then snd (fst c) else m) cells 0.
+
+Definition fsx_core (rs re cl ch : N) (cells : list (pos * T)) : range T :=
+  let cols := ch - cl + 1 in
+  let rows := re - rs + 1 in
+  let len := sat64 (cols * rows) in
+  let v := fold_left (fun v c =>
+             let idx := sat64 ((fst (fst c) - rs) * cols) + (snd (fst c) - cl) in
+             if idx <? len then list_set v (N.to_nat idx) (snd c) else v)
+           cells (repeat d (N.to_nat len)) in
+  mkRange (rs, cl) (re, ch) v.
+
+Definition from_sparse_x (cells : list (pos * T)) : range T :=
+  match cells with
+  | [] => empty
+  | _ => fsx_core (row_lo cells) (row_hi cells) (col_lo cells) (col_hi cells) cells
+  end.
+End FromSparseX.
 
 Section Model.
 Variable parse_f64 : str -> option N.      (* str::parse::<f64>() as raw bits; None = Err *)
@@ -283,13 +381,12 @@ Definition read_v (e : env) (v : str) (cattrs : attrs) : sres dref dref :=
   | Some t =>
     if str_eqb t v_s then
       let idx := match parse_usize v with Some i => i | None => 0 end in
-      if idx <? N.of_nat (length (e_strings e)) then                          (* strings[idx] *)
-        match nth_error (e_strings e) (N.to_nat idx) with
-        | Some s => Cont (RShared s)
-        | None => Boom
-        end
-      else Boom
-    else if str_eqb t v_b then Cont (RBool (negb (str_eqb v v_0)))            (* v != "0" *)
+      match nth_N (e_strings e) idx with                                      (* strings.get(idx) *)
+      | Some s => Cont (RShared s)
+      | None => Fail E_OUT_OF_RANGE
+      end
+    else if str_eqb t v_b then
+      Cont (RBool (negb (str_eqb v v_0) && negb (str_eqb v v_false)))         (* v != "0" && v != "false" *)
     else if str_eqb t v_e then
       match parse_cell_error v with Some c => Cont (RError c) | None => Fail E_CELLERROR end
     else if str_eqb t v_d then Cont (RDateTimeIso v)
@@ -304,9 +401,13 @@ Definition read_v (e : env) (v : str) (cattrs : attrs) : sres dref dref :=
       end
     else Fail E_TATTR                                                          (* "is" or unknown *)
   | None =>
-    match parse_f64 v with
-    | Some bits => Cont (format_excel_f64_ref bits fmt (e_1904 e))
-    | None => Cont (RString v)                                                 (* .or(Ok(String(v))) *)
+    match v with
+    | [] => Cont REmpty                                                        (* default type n: empty cell *)
+    | _ =>
+      match parse_f64 v with
+      | Some bits => Cont (format_excel_f64_ref bits fmt (e_1904 e))
+      | None => Cont (RString v)                                               (* .or(Ok(String(v))) *)
+      end
     end
   end.
 
@@ -436,20 +537,21 @@ Definition cells_step (en : env) (st : sh_state) (e : event) : sh_res :=
     | Start n a =>
       if is_local n_row n then
         match get_attribute a a_r with
-        | Some range => lift_sh (do r <- get_row range; Ok (ShOuter r col))
+        | Some range => lift_sh (do r <- get_row_x range; Ok (ShOuter r col))
         | None => SCont st
         end
       else if is_local n_c n then
         match get_attribute a a_r with
         | Some range =>
-            lift_sh (do rc <- get_row_column range;
+            lift_sh (do rc <- get_row_column_x range;
                      Ok (ShCell row (snd rc) rc a (CcOuter REmpty)))      (* self.col_index = col *)
         | None => SCont (ShCell row col (row, col) a (CcOuter REmpty))
         end
       else SCont st
     | End n =>
       if is_local n_row n then
-        lift_sh (do r <- add32 row 1; Ok (ShOuter r 0))                  (* row_index += 1; col_index = 0 *)
+        (if row + 1 <=? U32MAX then SCont (ShOuter (row + 1) 0)          (* checked_add(1); col_index = 0 *)
+         else SFail E_OUT_OF_RANGE)
       else if is_local n_sheetData n then SDone
       else SCont st
     | _ => SCont st
@@ -458,10 +560,8 @@ Definition cells_step (en : env) (st : sh_state) (e : event) : sh_res :=
     match cc_step en a cst e with
     | Cont cst' => SCont (ShCell row col p a cst')
     | Ret v =>
-        match add32 col 1 with                                           (* self.col_index += 1 *)
-        | Ok col' => SCell (ShOuter row col') (p, v)
-        | _ => SBoom
-        end
+        if col + 1 <=? U32MAX then SCell (ShOuter row (col + 1)) (p, v)   (* checked_add(1) *)
+        else SFail E_OUT_OF_RANGE
     | Fail c => SFail c
     | Boom => SBoom
     end
@@ -495,7 +595,7 @@ Fixpoint reader_new_loop (sh_type : bool) (d : dims) (evs : list event)
   | Start n a :: rest =>
       if is_local n_dimension n then
         match get_attribute a a_ref with
-        | Some rdim => do d' <- get_dimension rdim; reader_new_loop sh_type d' rest
+        | Some rdim => do d' <- get_dimension_x rdim; reader_new_loop sh_type d' rest
         | None => Err E_NODE
         end
       else if is_local n_sheetData n then Ok (d, rest)
@@ -523,7 +623,7 @@ Definition xlsx_range_ref (en : env) (h : header_row) (evs : list event) : outco
   do ocs <- sheet_cells en evs;
   match ocs with
   | None => Ok empty                                   (* NotAWorksheet: Range::default() *)
-  | Some cs => lazy_range REmpty h (nonempty_cells cs)
+  | Some cs => Ok (from_sparse_x REmpty (lazy_cells REmpty h (nonempty_cells cs)))
   end.
 
 Definition map_range {A B} (f : A -> B) (r : range A) : range B :=
@@ -556,7 +656,8 @@ Record ecell : Type := mkCell {
   ec_style : option N;         (* s attribute *)
   ec_val : lvalue;
   ec_sform : strform;          (* storage of a string value *)
-  ec_tn : bool;                (* numbers / blanks: write t="n" (blank: with an empty <v/>) *)
+  ec_tn : bool;                (* numbers / blanks: write t="n" *)
+  ec_alt : bool;               (* booleans: the words true / false; blanks: an empty <v/> *)
   ec_formula : option str;     (* an <f> element before <v> *)
   ec_extra : attrs;            (* other attributes (cm, vm, ph …) *)
   ec_inner : list event;       (* character data / comments between <c> and its first child *)
@@ -615,10 +716,12 @@ Definition cell_content (pfx : str) (c : ecell) : list event :=
       | SfInline => elem pfx n_is [] (elem pfx n_t [] (text_ev s))
       | SfStr => formula_events pfx (ec_formula c) ++ v_elem pfx s
       end
-  | LBool b => formula_events pfx (ec_formula c) ++ v_elem pfx (if b then v_1 else v_0)
+  | LBool b =>
+      formula_events pfx (ec_formula c) ++
+      v_elem pfx (if ec_alt c then (if b then v_true else v_false) else (if b then v_1 else v_0))
   | LError code => formula_events pfx (ec_formula c) ++ v_elem pfx (err_text code)
   | LIso s => v_elem pfx s
-  | LBlank => formula_events pfx (ec_formula c) ++ (if ec_tn c then v_elem pfx [] else [])
+  | LBlank => formula_events pfx (ec_formula c) ++ (if ec_alt c then v_elem pfx [] else [])
   end.
 
 Definition cell_ref (row : N) (c : ecell) : str :=
@@ -702,8 +805,8 @@ Definition value_at (en : env) (l : list lcell) (q : pos) : xdata :=
 (* the Range a logical sheet denotes: the tight bounding rectangle of its non-empty cells, every
    cell at its absolute position (C05_from_sparse_spec characterises from_sparse; the theorem
    C01_range_of_spec restates it for sheets) *)
-Definition range_of (en : env) (l : list lcell) : outcome (range xdata) :=
-  from_sparse DEmpty (used_cells_spec en l).
+Definition range_of (en : env) (l : list lcell) : range xdata :=
+  from_sparse_x DEmpty (used_cells_spec en l).
 
 (* ---------- legal ---------- *)
 Definition is_noise (e : event) : bool :=
@@ -791,7 +894,7 @@ Definition legal_sheet (en : env) (sh : esheet) : bool :=
 
 (* the same sheet with every reference written out *)
 Definition explicit_cell (c : ecell) : ecell :=
-  mkCell (ec_col c) true (ec_lower c) (ec_style c) (ec_val c) (ec_sform c) (ec_tn c) (ec_formula c)
+  mkCell (ec_col c) true (ec_lower c) (ec_style c) (ec_val c) (ec_sform c) (ec_tn c) (ec_alt c) (ec_formula c)
          (ec_extra c) (ec_inner c) (ec_junk c).
 Definition explicit_row (r : erow) : erow :=
   mkRow (er_row r) true (er_extra r) (er_junk0 r) (map explicit_cell (er_cells r)) (er_junk r).
@@ -800,12 +903,8 @@ Definition all_explicit (sh : esheet) : esheet :=
           (es_post sh).
 
 (* ---------- known classes ---------- *)
-(* class 1: an error cell holding #GETTING_DATA (CellErrorType::GettingData exists, the xlsb
-   reader produces it, but the xlsx literal parser rejects it: the whole sheet fails) *)
-Definition known_cell (c : ecell) : bool :=
-  match ec_val c with LError code => code =? 7 | _ => false end.
-Definition known_C01 (sh : esheet) : option N :=
-  if existsb (fun r => existsb known_cell (er_cells r)) (es_rows sh) then Some 1 else None.
+(* none at the sheet level: the #GETTING_DATA class of round 1 is fixed (commit "fix: an xlsx error
+   cell holding #GETTING_DATA made the whole sheet unreadable") *)
 
 (* ====================================================================================== *)
 (*                     workbook level: relationships, workbook.xml, parts                  *)
@@ -875,6 +974,19 @@ Fixpoint read_relationships (acc : list (str * str)) (evs : list event) : outcom
 Definition rel_get (rels : list (str * str)) (id : str) : option str :=
   match find (fun p => str_eqb (fst p) id) rels with Some p => Some (snd p) | None => None end.
 
+(* THE relationship-id attribute of <sheet>.  [rid_fix_applied] = false models the tree as it is
+   (literal names r:id / relationships:id, class F30); true models the fix of branch c16-fixes
+   (commit "fix: xlsx workbooks binding the relationships namespace to another prefix than r failed
+   to open": key.prefix().is_some() && key.local_name() == "id").  Flip this one line when that
+   commit is in the tree. *)
+Definition rid_fix_applied : bool := false.
+Definition has_prefix (k : str) : bool :=
+  match XmlText.after_colon k with Some _ => true | None => false end.
+Definition is_rid_attr_gen (fixed : bool) (k : str) : bool :=
+  if fixed then has_prefix k && str_eqb (local_name k) a_id
+  else str_eqb k a_rid || str_eqb k a_relsid.
+Definition sheet_rid_attr (k : str) : bool := is_rid_attr_gen rid_fix_applied k.
+
 (* the attribute loop of the `sheet` arm *)
 Fixpoint sheet_attrs (rels : list (str * str)) (a : attrs) (name path : str) : outcome (str * str) :=
   match a with
@@ -884,7 +996,7 @@ Fixpoint sheet_attrs (rels : list (str * str)) (a : attrs) (name path : str) : o
       else if str_eqb k a_state then
         if str_eqb v v_visible || str_eqb v v_hidden || str_eqb v v_veryHidden
         then sheet_attrs rels r name path else Err E_UNRECOGNIZED
-      else if str_eqb k a_rid || str_eqb k a_relsid then
+      else if sheet_rid_attr k then
         match rel_get rels v with
         | Some t => sheet_attrs rels r name (normalize_target t)
         | None => Err E_REL_NOT_FOUND
@@ -972,6 +1084,13 @@ Definition workbook_ranges (strings : list str) (formats : list cell_format) (pk
   do si <- open_sheets pk;
   Ok (map (fun s => (fst s, workbook_range strings formats pk (fst si) (snd si) (fst s))) (fst si)).
 
+(* worksheets(): filter_map(|n| worksheet_range(&n).ok()) — note that a chartsheet part (no
+   sheetData) is NOT an error: worksheet_range_ref answers Range::default() for it *)
+Definition worksheets_model (strings : list str) (formats : list cell_format) (pk : package)
+  : outcome (list (str * range xdata)) :=
+  do l <- workbook_ranges strings formats pk;
+  Ok (flat_map (fun nr => match snd nr with Ok r => [(fst nr, r)] | _ => [] end) l).
+
 End Model.
 
 (* ---------- workbook encoder (for the path theorems and the tie) ---------- *)
@@ -983,12 +1102,17 @@ Definition spell (sp : spelling) (part : str) : str :=     (* part is relative t
   | SpXl => p_xl ++ part
   end.
 
+Inductive sheet_content : Type :=
+| SWork (sh : esheet)              (* a worksheet part: encode sh *)
+| SOther (evs : list event).       (* a chartsheet / dialogsheet part: no sheetData *)
+
 Record esheetref : Type := mkSheetRef {
   sr_name : str;               (* sheet name *)
   sr_rid : str;                (* relationship id *)
   sr_part : str;               (* part name relative to xl/, e.g. worksheets/sheet1.xml *)
   sr_spelling : spelling;      (* how the Target attribute spells it *)
-  sr_extra : attrs             (* sheetId … *)
+  sr_extra : attrs;            (* sheetId, state … *)
+  sr_content : sheet_content   (* what the part holds *)
 }.
 
 Record eworkbook : Type := mkWorkbook {
@@ -1018,6 +1142,74 @@ Definition workbook_events (wb : eworkbook) : list event :=
 
 (* class 2 (F30): the relationship-id attribute is recognised by the literal prefixes r and
    relationships only *)
-Definition known_C01_wb (wb : eworkbook) : option N :=
-  if str_eqb (wb_relpfx wb) r_prefix || str_eqb (wb_relpfx wb) relationships_prefix
+Definition known_C01_wb_gen (fixed : bool) (wb : eworkbook) : option N :=
+  if fixed || str_eqb (wb_relpfx wb) r_prefix || str_eqb (wb_relpfx wb) relationships_prefix
   then None else Some 2.
+Definition known_C01_wb (wb : eworkbook) : option N := known_C01_wb_gen rid_fix_applied wb.
+
+(* ---------- legal workbook descriptions and packages (for C01_xlsx_workbook_main) ---------- *)
+Fixpoint eic_distinct (names : list str) : bool :=
+  match names with
+  | [] => true
+  | n :: t => forallb (fun m => negb (eq_ignore_ascii_case n m)) t && eic_distinct t
+  end.
+Fixpoint str_distinct (names : list str) : bool :=
+  match names with
+  | [] => true
+  | n :: t => forallb (fun m => negb (str_eqb n m)) t && str_distinct t
+  end.
+
+Definition is_start (e : event) : bool :=
+  match e with XmlText.Start _ _ => true | _ => false end.
+
+Definition folder_names : list str := [p_worksheets; p_chartsheets; p_dialogsheets; p_macrosheets].
+(* a sheet part lives in one of the four folders the reader knows *)
+Definition part_ok (part : str) : bool :=
+  existsb (fun f => starts_with (f ++ [SLASH]) part) folder_names.
+
+(* other attributes of <sheet>: not name, not a relationship id, a state only with a legal value *)
+Definition sheet_attr_ok (kv : str * str) : bool :=
+  negb (str_eqb (fst kv) a_name) && negb (sheet_rid_attr (fst kv)) &&
+  (negb (str_eqb (fst kv) a_state) ||
+   str_eqb (snd kv) v_visible || str_eqb (snd kv) v_hidden || str_eqb (snd kv) v_veryHidden).
+
+Definition content_events (c : sheet_content) : list event :=
+  match c with SWork sh => encode sh | SOther evs => evs end.
+
+Definition legal_content (parse_f64 : str -> option N) (en : env) (c : sheet_content) : bool :=
+  match c with
+  | SWork sh => legal_sheet parse_f64 en sh
+  | SOther evs => forallb pre_ok evs && existsb is_start evs
+  end.
+
+(* what worksheet_range must answer for a sheet *)
+Definition sheet_spec (parse_f64 : str -> option N) (en : env) (c : sheet_content)
+  : outcome (range xdata) :=
+  match c with
+  | SWork sh => Ok (range_of parse_f64 en (logical sh))
+  | SOther _ => Ok empty
+  end.
+
+Definition date_flag (wb : eworkbook) : bool :=
+  match wb_date1904 wb with
+  | Some c => str_eqb c v_1 || str_eqb c v_true
+  | None => false
+  end.
+
+Definition legal_workbook (wb : eworkbook) : bool :=
+  no_colon (wb_pfx wb) && no_colon (wb_relspfx wb) && no_colon (wb_relpfx wb) &&
+  match wb_relpfx wb with [] => false | _ => true end &&
+  forallb (fun s => part_ok (sr_part s) && forallb sheet_attr_ok (sr_extra s)) (wb_sheets wb) &&
+  str_distinct (map sr_name (wb_sheets wb)) && str_distinct (map sr_rid (wb_sheets wb)).
+
+(* the zip package holds the two workbook parts and one part per sheet, under any ASCII casing of
+   their names, in any order, among any other entries; names are distinct up to ASCII case *)
+Definition package_holds (parse_f64 : str -> option N) (strings : list str)
+           (formats : list cell_format) (wb : eworkbook) (pk : package) : Prop :=
+  eic_distinct (map fst pk) = true /\
+  (exists n, In (n, rels_events wb) pk /\ eq_ignore_ascii_case n p_workbook_rels = true) /\
+  (exists n, In (n, workbook_events wb) pk /\ eq_ignore_ascii_case n p_workbook_xml = true) /\
+  (forall s, In s (wb_sheets wb) ->
+     exists n, In (n, content_events (sr_content s)) pk /\
+               eq_ignore_ascii_case n (p_xl ++ sr_part s) = true /\
+               legal_content parse_f64 (mkEnv strings formats (date_flag wb)) (sr_content s) = true).
